@@ -1,3 +1,43 @@
+/-
+  C07 — format() followed by parse() returns the original instant (model level: the field-level
+  round trips that the whole-string round trip is made of, and the whole round trip for %s).
+-/
 import Cctz.Model.Parse
+import Cctz.Spec.FormatSpec
+import Cctz.Proofs.RoundTrip
+
 namespace Cctz.C07
+open Cctz Cctz.Bytes Cctz.Format Cctz.Parse Cctz.Spec
+
+/-- decimal integers: what format writes for any int64 (including INT64_MIN) parse reads back -/
+def int_roundtrip_statement : Prop :=
+  ∀ (v : Int) (rest : Bytes), inI64 v → isDigit (rest.headD 0) = false →
+    parseInt64 (format64 0 v ++ rest) 0 i64min i64max = some (rest, v)
+
+/-- two-digit fields -/
+def field2_roundtrip_statement : Prop :=
+  ∀ (v lo hi : Int) (rest : Bytes), 0 ≤ v → v ≤ 99 → lo ≤ v → v ≤ hi → 0 ≤ lo →
+    parseInt32 ((format02d v).val ++ rest) 2 lo hi = some (rest, v)
+
+/-- the full-resolution offset (%E*z / %::z) for every offset strictly inside ±24 h -/
+def offset_roundtrip_statement : Prop :=
+  ∀ (off : Int) (rest : Bytes), -86400 < off → off < 86400 → isDigit (rest.headD 0) = false →
+    parseOffset ((formatOffset off [58, 42]).val ++ rest) 58 = some (rest, off)
+
+/-- … and it fails at exactly ±24 h (finding F10: only fixed_time_zone(±24h) has such an offset) -/
+def offset_24h_counterexample_statement : Prop :=
+  parseOffset (formatOffset 86400 [58, 42]).val 58 = none ∧ parseOffset (formatOffset (-86400) [58, 42]).val 58 = none
+
+/-- the fraction written by %E*S is read back exactly -/
+def fraction_roundtrip_statement : Prop :=
+  ∀ (fs : Int) (rest : Bytes), 0 < fs → fs < 1000000000000000 → isDigit (rest.headD 0) = false →
+    parseSubSeconds (fracStar fs ++ rest) = some (rest, fs)
+
+/-- the whole round trip for %s, for every instant -/
+def percent_s_roundtrip_statement : Prop :=
+  ∀ (z z' : Tz.Zone) (h : Nat) (t : Int), inI64 t →
+    let al := (Tz.breakTime z h t).val.1
+    let text := render (fun _ _ => []) (formatSegs (ofString "%s") al t 0).val.1 (formatSegs (ofString "%s") al t 0).val.2
+    (parse (fun _ _ _ => none) (ofString "%s") text z').val.1 = .ok t 0
+
 end Cctz.C07
